@@ -25,7 +25,7 @@ type Profile struct {
 }
 
 func weighted(w map[string]int) []string {
-	order := []string{"resolve", "reserr", "state", "pick", "done", "adv", "failnew", "cancel", "allready", "bindflow", "decall", "readyrepl", "staledown", "emptypool", "saturate", "refreshcycle", "stalede", "affswap", "fbflow", "bindacross", "growmax", "multibind", "fillwm", "affburst", "flaprefresh", "rrempty", "rrstraddle", "unbindrace", "resurrect", "rrwrap", "rrdead", "fbtwice", "rrresurrect", "rrlongwait", "hashpair", "reserrdown", "resurrectgrow", "refreshresp", "rrdupspin"}
+	order := []string{"resolve", "reserr", "state", "pick", "done", "adv", "failnew", "cancel", "allready", "bindflow", "decall", "readyrepl", "staledown", "emptypool", "saturate", "refreshcycle", "stalede", "affswap", "fbflow", "bindacross", "growmax", "multibind", "fillwm", "affburst", "flaprefresh", "rrempty", "rrstraddle", "unbindrace", "resurrect", "rrwrap", "rrdead", "fbtwice", "rrresurrect", "rrlongwait", "hashpair", "reserrdown", "resurrectgrow", "refreshresp", "rrdupspin", "crflow"}
 	var out []string
 	for _, k := range order {
 		for i := 0; i < w[k]; i++ {
@@ -532,6 +532,29 @@ func genStep(p *Profile, cfg *Config) *rapid.Generator[[]Op] {
 				}
 			}
 			return ops
+		case "crflow":
+			// three refreshes of one channel in a row; two calls stay open on it, so that (with the creation probe) a response
+			// can arrive while the second refresh is being started: the window counts from there again
+			key := rapid.IntRange(0, 3).Draw(t, "ck")
+			calls := cfg.UdCalls
+			if calls < 1 {
+				calls = 1
+			}
+			if calls > 3 {
+				calls = 3
+			}
+			var ops []Op
+			for i := 0; i < 6; i++ {
+				ops = append(ops, Op{K: "state", Idx: i, St: 2})
+			}
+			ops = append(ops, Op{K: "pick", M: 1, Key: key}, Op{K: "done", Idx: -1, Out: 0}, Op{K: "pick", M: 2, Key: key}, Op{K: "pick", M: 2, Key: key})
+			for round := 0; round < 3; round++ {
+				for j := 0; j < calls; j++ {
+					ops = append(ops, Op{K: "pick", M: 2, Key: key, DlMs: 1}, Op{K: "adv", Mode: 1, Idx: -1, Eps: 1}, Op{K: "done", Idx: -1, Out: 2})
+				}
+				ops = append(ops, Op{K: "state", Sel: 4, Key: key, St: 2})
+			}
+			return ops
 		case "hashpair":
 			// two keys that collide under a common string hash: both bound (the second after some load, so mostly elsewhere),
 			// one unbound again, then the other one is used: it is still bound to its channel
@@ -715,6 +738,9 @@ func GenCase(t *rapid.T, p *Profile) *Case {
 	if cfg.UdMs > 0 && cfg.UdCalls > 0 && rapid.IntRange(0, 5).Draw(t, "rmprobe") == 0 {
 		c.RmProbe = true
 	}
+	if cfg.UdMs > 0 && cfg.UdCalls > 0 && cfg.WM >= 50 && rapid.IntRange(0, 3).Draw(t, "crprobe") == 0 {
+		c.CrProbe = true
+	}
 	var ops []Op
 	if !pct(p.NoFirst, "nofirst") {
 		ops = append(ops, Op{K: "resolve", Addrs: rapid.SampledFrom([]int{0, 0, 0, 1, 2}).Draw(t, "addrs0")})
@@ -762,7 +788,7 @@ var Profiles = map[string]*Profile{
 	"hostile": {Name: "hostile", Wild: true, WM: []int{1}, Fallback: 50, UdMs: []int64{0, 1, 7}, UdCalls: []int{0, 1}, RR: 25, Strict: 50, Shutdown: true, Hostile: true, CfgOps: true, NoFirst: 20,
 		W: map[string]int{"resolve": 4, "reserr": 2, "state": 12, "pick": 20, "done": 10, "adv": 2, "failnew": 3, "cancel": 2, "allready": 3, "bindflow": 4, "decall": 6, "readyrepl": 5, "staledown": 3, "emptypool": 1, "saturate": 2, "affswap": 3, "fbflow": 3, "refreshcycle": 2, "bindacross": 2, "multibind": 2, "rrempty": 3, "rrwrap": 2, "rrdupspin": 3}, Methods: hostileMethods},
 	"detector": {Name: "detector", Min: [2]int{1, 3}, Max: [2]int{1, 3}, WM: []int{100, 100, 2}, UdMs: []int64{0, 1, 7, 100, 60000, 1 << 31, 1<<32 - 1}, UdCalls: []int{0, 1, 1, 2, 2, 3, 4, 1 << 31, 1<<32 - 1}, Strict: 50, Shutdown: true, RR: 20,
-		W: map[string]int{"resolve": 1, "state": 5, "pick": 8, "done": 8, "adv": 4, "failnew": 3, "allready": 2, "decall": 24, "readyrepl": 10, "refreshcycle": 10, "stalede": 8, "rrstraddle": 4}, Methods: []int{0, 0, 2, 1}},
+		W: map[string]int{"resolve": 1, "state": 5, "pick": 8, "done": 8, "adv": 4, "failnew": 3, "allready": 2, "decall": 24, "readyrepl": 10, "refreshcycle": 10, "stalede": 8, "rrstraddle": 4, "crflow": 6}, Methods: []int{0, 0, 2, 1}},
 	"fallback": {Name: "fallback", Min: [2]int{2, 4}, Max: [2]int{2, 4}, WM: []int{1, 2, 3}, Fallback: 100, UdMs: []int64{0, 7, 100}, UdCalls: []int{1}, Strict: 50,
 		W: map[string]int{"resolve": 1, "state": 8, "pick": 20, "done": 6, "adv": 1, "allready": 3, "bindflow": 10, "decall": 5, "readyrepl": 6, "staledown": 6, "saturate": 2, "fbflow": 16, "affswap": 2, "bindacross": 1, "resurrect": 4, "fbtwice": 6}, Methods: []int{0, 2, 2, 2, 2, 5, 3, 1}},
 	"rr": {Name: "rr", Min: [2]int{1, 6}, Max: [2]int{1, 6}, WM: []int{1, 2, 100}, Fallback: 20, UdMs: []int64{0, 7, 100}, UdCalls: []int{1}, RR: 100, Strict: 50, Shutdown: true,
